@@ -32,11 +32,19 @@ type Scenario struct {
 	NoProofs bool        `json:"no_proofs"`
 	Strategy string      `json:"strategy"`
 	Seed     int64       `json:"seed"`
+	// optional refinements (signing / keygen scenario space of C01-C03, C18, C20)
+	Subset       []int    `json:"subset,omitempty"`         // indices (into the key's parties) of the participants
+	MsgHex       string   `json:"msg_hex,omitempty"`        // message / digest as a big-endian integer
+	FullBytesLen int      `json:"full_bytes_len,omitempty"` // 0 = absent
+	KDDHex       string   `json:"kdd_hex,omitempty"`        // ECDSA key derivation delta
+	PartyKeys    []string `json:"party_keys,omitempty"`     // decimal party id keys (keygen / new committee)
+	ExpectRefuse bool     `json:"expect_refuse,omitempty"`  // the scenario must be refused by Start() before anything is sent
 	Schedule []pump.Step `json:"schedule,omitempty"` // recorded schedule (for replay)
 }
 
 func (sc Scenario) GroupKey() string {
-	return fmt.Sprintf("%s/n%d/t%d/k%d/new%d.%d/np%v", sc.Proto, sc.N, sc.T, sc.KeyN, sc.NewN, sc.NewT, sc.NoProofs)
+	return fmt.Sprintf("%s/n%d/t%d/k%d/new%d.%d/np%v/s%v/m%s.%d/d%s/ids%v", sc.Proto, sc.N, sc.T, sc.KeyN, sc.NewN, sc.NewT, sc.NoProofs,
+		sc.Subset, sc.MsgHex, sc.FullBytesLen, sc.KDDHex, sc.PartyKeys)
 }
 
 // key material cache (per process)
@@ -97,8 +105,35 @@ func copyEc(k eckg.LocalPartySaveData) eckg.LocalPartySaveData {
 }
 
 // BuildConfig turns a scenario into a pump configuration (key material from the caches).
-func BuildConfig(sc Scenario) (pump.Config, error) {
-	cfg := pump.Config{Proto: sc.Proto, N: sc.N, T: sc.T, NewN: sc.NewN, NewT: sc.NewT, NoProofs: sc.NoProofs, Seed: sc.Seed}
+func BuildConfig(sc Scenario) (cfg pump.Config, err error) {
+	cfg = pump.Config{Proto: sc.Proto, N: sc.N, T: sc.T, NewN: sc.NewN, NewT: sc.NewT, NoProofs: sc.NoProofs, Seed: sc.Seed, FullBytesLen: sc.FullBytesLen}
+	for _, k := range sc.PartyKeys {
+		v, ok := new(big.Int).SetString(k, 10)
+		if !ok {
+			return cfg, fmt.Errorf("bad party key %q", k)
+		}
+		cfg.PartyKeys = append(cfg.PartyKeys, v)
+	}
+	if sc.KDDHex != "" {
+		v, ok := new(big.Int).SetString(sc.KDDHex, 16)
+		if !ok {
+			return cfg, fmt.Errorf("bad kdd %q", sc.KDDHex)
+		}
+		cfg.KDD = v
+	}
+	pick := func(i int) int {
+		if sc.Subset != nil {
+			return sc.Subset[i]
+		}
+		return i
+	}
+	defer func() {
+		if sc.MsgHex != "" {
+			if v, ok := new(big.Int).SetString(sc.MsgHex, 16); ok {
+				cfg.Msg = v
+			}
+		}
+	}()
 	switch sc.Proto {
 	case pump.EdKeygen:
 	case pump.EcKeygen:
@@ -113,7 +148,7 @@ func BuildConfig(sc Scenario) (pump.Config, error) {
 			return cfg, err
 		}
 		for i := 0; i < sc.N; i++ {
-			cfg.EdKeys = append(cfg.EdKeys, copyEd(keys[i]))
+			cfg.EdKeys = append(cfg.EdKeys, copyEd(keys[pick(i)]))
 		}
 		cfg.Msg = big.NewInt(0x5eed + sc.Seed)
 	case pump.EcSigning, pump.EcReshare:
@@ -122,7 +157,7 @@ func BuildConfig(sc Scenario) (pump.Config, error) {
 			return cfg, err
 		}
 		for i := 0; i < sc.N; i++ {
-			cfg.EcKeys = append(cfg.EcKeys, copyEc(keys[i]))
+			cfg.EcKeys = append(cfg.EcKeys, copyEc(keys[pick(i)]))
 		}
 		cfg.Msg = big.NewInt(0x5eed + sc.Seed)
 		if sc.Proto == pump.EcReshare {
